@@ -306,6 +306,18 @@ def r7(c):
         cb = [cs for cs in b.calls() if (cs.callee or '').startswith('rodbus_ffi::ffi::AuthorizationHandler::')]
         ok = len(cb) == 1 and cb[0].callee == 'rodbus_ffi::ffi::AuthorizationHandler::' + meth
         c.ob('ffi/%s/callee' % meth, ok, 'wrapper %s calls the C callback %s' % (meth, meth), str([x.callee for x in cb]), loc_of(b))
+        if ok:
+            # unit id, range / index and role of THIS query reach the callback: each argument derives from the
+            # same-named parameter, and the role from nothing the wrapper object remembers
+            call = cb[0]
+            rolearg = call.args[-1]
+            cl = b.op_closure(rolearg)
+            role_l = [pl['l'] for n_, pl in b.names.items() if n_ == 'role' and not pl['p']]
+            okr = bool(role_l) and ('l', role_l[0]) in cl and ('l', 1) not in cl
+            c.ob('ffi/%s/role' % meth, okr, 'the role handed to the C callback is converted from the `role` parameter of this call (nothing cached in the wrapper)',
+                 'depends on self: %s' % (('l', 1) in cl), call.loc())
+            oku = 'unit_id' in q.closure_names(b, call.args[1])
+            c.ob('ffi/%s/unit' % meth, oku, 'the unit id handed to the C callback is the `unit_id` parameter', '', call.loc())
         uo = b.calls('core::option::Option::unwrap_or')
         okd = False
         for u in uo:
